@@ -657,6 +657,18 @@ func (mc *vfC04Machine) actDHCP(t *rapid.T) {
 	vfC04.Class("op:lease:set")
 }
 
+// actReload rebuilds the registry from its own content.
+func (mc *vfC04Machine) actReload(t *rapid.T) {
+	names := mc.sys.m.names()
+	if len(names) == 0 {
+		t.Skip("empty registry")
+	}
+	order := rapid.Permutation(names).Draw(t, "reload_order")
+	mc.sys.reload(t, order)
+	mc.log(t, "reload(%v)", order)
+	vfC04.Class("op:reload")
+}
+
 // invariant looks up everything after every step.
 func (mc *vfC04Machine) invariant(t *rapid.T) {
 	sys := mc.sys
@@ -766,6 +778,7 @@ func TestVFC04Machine(t *testing.T) {
 			"move":    mc.actMove,
 			"remove":  mc.actRemove,
 			"dhcp":    mc.actDHCP,
+			"reload":  mc.actReload,
 		})
 
 		vfC04.Eval()
